@@ -543,7 +543,8 @@ func run(c *lib.Ctx) error {
 
 	t0 := time.Now()
 	var cases []VCase
-	skipped := 0
+	skipped, leaks := 0, 0
+	const maxLeaks = 3 // enough to report; every further one costs the full settle limit
 	for i, g := range shapes {
 		if !rd.stdinRedirOK && retargetsPipedStdin(g.Shape) {
 			skipped++
@@ -573,6 +574,13 @@ func run(c *lib.Ctx) error {
 			}
 			cases = append(cases, vc)
 			c.Distinct(shapeKey(g.Shape) + "|" + v.how)
+			if (vc.Fd != 0 || vc.Go != 0) && !vc.PFail {
+				leaks++
+			}
+		}
+		if leaks >= maxLeaks {
+			c.Logf("G: %d cases away from the baseline: stopping the enumeration early (each costs the full settle limit)", leaks)
+			break
 		}
 		if i == 7 || i == len(shapes)/2 {
 			c.Sample(cases[len(cases)-1])
@@ -580,13 +588,13 @@ func run(c *lib.Ctx) error {
 	}
 	c.Set("shapes_skipped_known_c42_defect", skipped)
 	c.Logf("G: %d shapes (%d skipped), %d (shape, variant) cases in %.1fs", len(shapes), skipped, len(cases), time.Since(t0).Seconds())
-	c.Set("exhaustive", true)
+	c.Set("exhaustive", leaks < maxLeaks)
 
 	// ---- V: random larger programs
 	nv := c.Pick(300, 3000)
 	rng := rand.New(rand.NewSource(c.Seed*104729 + 5))
 	t0 = time.Now()
-	for i := 0; i < nv; i++ {
+	for i := 0; i < nv && leaks < maxLeaks; i++ {
 		shape := randPipeline(rng, rd, 0)
 		v := variant{how: "plain"}
 		switch rng.Intn(5) {
@@ -603,6 +611,12 @@ func run(c *lib.Ctx) error {
 		}
 		cases = append(cases, vc)
 		c.Distinct(shapeKey(shape) + "|" + v.how)
+		if vc.Fd != 0 || vc.Go != 0 {
+			leaks++
+		}
+		if leaks >= maxLeaks {
+			break
+		}
 		if i == 3 {
 			c.Sample(vc)
 		}
